@@ -105,16 +105,6 @@ func (s c06cScenario) flat() []c06cOp {
 	return ops
 }
 
-func (s c06cScenario) hasForce() bool {
-	for _, o := range s.flat() {
-		if o.kind == "F" {
-			return true
-		}
-	}
-
-	return false
-}
-
 // ---- observing the real handler
 
 func c06cVPID(vp base.Voteproof) string {
@@ -351,6 +341,10 @@ func c06cReach(universe []c06Pos) map[string]bool {
 	return reach
 }
 
+// c06cOnlyPositionOracle (env VERIF_C06C_ORACLE=position; demonstration aid, never set by
+// run.sh) switches oracles (2) and (3) off, to show what the model-free oracle (1) catches alone.
+var c06cOnlyPositionOracle = os.Getenv("VERIF_C06C_ORACLE") == "position"
+
 func c06cFail(kind string, sig map[string]any, detail string) *vsched.Fail {
 	sig["kind"] = kind
 	sig["half"] = "concurrent"
@@ -463,6 +457,10 @@ func c06cBuild(env *c06Env, s c06cScenario, seq *c06cSeq, reach map[string]bool)
 				}
 			}
 
+			if c06cOnlyPositionOracle {
+				return nil
+			}
+
 			// (2) linearizability against the sequential behaviour
 			all := func(c06cEvent) bool { return true }
 
@@ -571,7 +569,7 @@ func c06cScenarios() []c06cScenario {
 	i21, i21d := P(2, 1, "Im-"), P(2, 1, "I--")
 	i30 := P(3, 0, "Im-")
 
-	quick := []c06cScenario{
+	basic := []c06cScenario{
 		// a voteproof of the next height and one of the height after it arrive together
 		{"two-heights", []c06Pos{h1I, h1A}, T{{S(i20)}, {S(i30)}, {L, L}}},
 		// the same voteproof arrives twice (ballotbox and sync): taken once
@@ -598,13 +596,15 @@ func c06cScenarios() []c06cScenario {
 		{"two-readers", []c06Pos{h1I, h1A}, T{{S(i20), S(a20)}, {S(i30)}, {L, L}, {L, L}}},
 	}
 
-	return quick
+	return basic
 }
 
-func c06cScenariosThorough() []c06cScenario {
+func c06cScenariosAll(thorough bool) []c06cScenario {
 	scs := c06cScenarios()
 
-	P := func(h int64, r uint64, accept, maj, sc bool) c06Pos { return c06Pos{h: h, r: r, accept: accept, maj: maj, sc: sc} }
+	P := func(h int64, r uint64, accept, maj, sc bool) c06Pos {
+		return c06Pos{h: h, r: r, accept: accept, maj: maj, sc: sc}
+	}
 	S := func(p c06Pos) c06cOp { return c06cOp{"S", p} }
 	F := func(p c06Pos) c06cOp { return c06cOp{"F", p} }
 	N := func(p c06Pos) c06cOp { return c06cOp{"N", p} }
@@ -619,14 +619,25 @@ func c06cScenariosThorough() []c06cScenario {
 	i30, a30 := P(3, 0, false, true, false), P(3, 0, true, true, false)
 	i21sc := P(2, 1, false, true, true)
 
-	return append(scs,
+	// thorough only: more threads / calls
+	big := []c06cScenario{
+		{"four-setters", []c06Pos{h1A}, T{{S(i20)}, {S(i21)}, {S(i30)}, {S(a20)}, {L, L}}},
+		{"two-pipelines-two-readers", []c06Pos{h1A}, T{{S(i20), S(a20)}, {S(i30), S(a30)}, {L, L}, {L, N(i30)}}},
+		{"force-vs-pipeline", []c06Pos{i20, a20}, T{{F(i20), S(a20)}, {S(i21d), S(i30)}, {L, L}}},
+	}
+
+	if !thorough {
+		big = nil
+	}
+
+	return append(append(scs,
 		c06cScenario{"two-pipelines", []c06Pos{h1A}, T{{S(i20), S(a20)}, {S(i30), S(a30)}, {L, L}}},
 		c06cScenario{"three-setters-two-ops", []c06Pos{h1A}, T{{S(i20d), S(i21)}, {S(i20), S(a20)}, {S(i30)}, {L, L}}},
 		c06cScenario{"draw-accept-vs-rounds", []c06Pos{h1A, i20}, T{{S(a20d), S(i21d)}, {S(i21)}, {L, N(i21), L}}},
 		c06cScenario{"confirm-after-init-same-point", []c06Pos{h1A}, T{{S(i21)}, {S(i21sc)}, {S(i21d)}, {L, L}}},
 		c06cScenario{"force-vs-two-setters", []c06Pos{i20, a20}, T{{F(i20)}, {S(i21d)}, {S(i30)}, {L, L}}},
 		c06cScenario{"force-accept-vs-set", []c06Pos{i20, i21d}, T{{F(a20)}, {S(i21)}, {L, N(i21), L}}},
-	)
+	), big...)
 }
 
 func TestVerifC06Conc(t *testing.T) {
@@ -647,10 +658,7 @@ func TestVerifC06Conc(t *testing.T) {
 
 	env := c06NewEnv(r, []int64{1, 2, 3}, []uint64{0, 1})
 
-	scs := c06cScenarios()
-	if r.Thorough() {
-		scs = c06cScenariosThorough()
-	}
+	scs := c06cScenariosAll(r.Thorough())
 
 	r.Set("conc_scenarios_enumerated", len(scs))
 
@@ -721,7 +729,15 @@ func TestVerifC06Conc(t *testing.T) {
 
 		for o := range res.Outcomes {
 			r.State(id + "=>" + o)
-			r.Outcome("conc:" + s.name + ":" + strings.SplitN(o, "=>", 2)[0])
+			var bs []string
+
+			for _, x := range strings.Split(strings.SplitN(o, "=>", 2)[0], ";") {
+				if x == "true" || x == "false" {
+					bs = append(bs, x[:1])
+				}
+			}
+
+			r.Outcome("conc:" + s.name + ":" + strings.Join(bs, ""))
 		}
 
 		for _, f := range res.Found {
